@@ -16,6 +16,7 @@
 #include <pistache/peer.h>
 #include <pistache/transport.h>
 
+#include <algorithm>
 #include <cerrno>
 #include <cstring>
 #include <ctime>
@@ -494,9 +495,12 @@ namespace Pistache::Http
 
             if (available + alreadyAppendedChunkBytes < size + 2)
             {
-                cursor.advance(available);
-                message->body_.append(chunkData.rawText(), available);
-                alreadyAppendedChunkBytes += available;
+                // Take the chunk data that is there, but leave a lone CR of the
+                // terminating CRLF in the buffer until the LF has arrived too
+                const ssize_t data = std::min(available, size - alreadyAppendedChunkBytes);
+                cursor.advance(data);
+                message->body_.append(chunkData.rawText(), data);
+                alreadyAppendedChunkBytes += data;
                 return Incomplete;
             }
             cursor.advance(size - alreadyAppendedChunkBytes);
